@@ -1,4 +1,5 @@
 import Proofs.StorageConc
+import Proofs.StorageChecker
 
 /-!
 # C13 — storage keeps what it was given: unique ids, read-your-writes, isolation
@@ -262,6 +263,36 @@ theorem C13_nonatomic_witness :
   unfold createJob createJobRead createJobCommit
   cases aget sid s.data <;> rfl
 
+/-! ## the verified checker run on the real answers -/
+
+/-- **C13 (verified history checker)** — for every observed history (calls paired with the answers a storage
+gave), the checker the driver evaluates on the answers of the REAL `MemoryStorage` / `SharedMemoryStorage`
+returns `true` exactly when the history is a run of the map specification from the empty map: every answer is
+one `Spec.answers` allows (fresh identifiers, the right exception for unknown / malformed ids, loads returning
+exactly the held record or the right set of values) and the map moves by `Spec.next`. -/
+theorem C13_checker (h : List (Op × Out)) : checkHistory h = true ↔ SpecRun Spec.empty h := by
+  unfold checkHistory
+  rw [checkHistoryFrom_iff h Store.init ND_init, abs_init]
+
+/-- the model's own answers always pass the checker (so a disagreement between the checker's verdict on the real
+answers and the model-vs-implementation comparison can only come from the implementation) -/
+theorem C13_model_passes_checker (ops : List Op) (hin : InScope ops) :
+    checkHistory (ops.zip (run Store.init ops).2) = true := by
+  rw [C13_checker, ← abs_init]
+  have key : ∀ (ops : List Op) (s : Store), WF s → InScope ops → SpecRun (abs s) (ops.zip (run s ops).2) := by
+    intro ops
+    induction ops with
+    | nil => intro s _ _; simp [run, SpecRun]
+    | cons op ops ih =>
+      intro s w hin
+      rw [run_cons]
+      simp only [List.zip_cons_cons, SpecRun]
+      have hop := hin op List.mem_cons_self
+      refine ⟨step_answers s w op hop, ?_⟩
+      rw [← abs_step s w op hop]
+      exact ih _ (WF_step w op) (fun o ho => hin o (List.mem_cons_of_mem _ ho))
+  exact key ops Store.init WF_init hin
+
 /-! ## non-vacuity -/
 
 /-- a history with two searches, jobs in both, stores and loads: the hypotheses of the theorems above are
@@ -272,10 +303,6 @@ def demo : List Op :=
 
 example : InScope demo := by intro op h; simp [demo] at h; rcases h with rfl | rfl | rfl | rfl | rfl | rfl | rfl <;> rfl
 example : idsOf (run Store.init demo).2 = ["0", "1", "0.0", "1.0", "0.1"] := by decide +kernel
-def isNoneOut : Out → Bool
-  | .none => true
-  | _ => false
-
 def errOf : Out → Option Err
   | .error e => some e
   | _ => none
@@ -283,6 +310,16 @@ def errOf : Out → Option Err
 example : isNoneOut (step (run Store.init demo).1 (.storeJob "0.1" "b" (.int 1))).2 = true := by decide +kernel
 example : (abs (run Store.init demo).1).has (.mdata "0.1" "a") = true := by decide +kernel
 example : (Op.storeJobOut "1.0" (.str "y")).writes (.mdata "0.1" "a") = false := by decide +kernel
+/-- the checker accepts a correct observed history and rejects a repeated identifier, a lost value, a phantom job -/
+example : checkHistory [(.createSearch, .id "0"), (.createJob "0", .id "0.0"), (.storeJobMetadata "0.0" "a" (.int 1), .none),
+    (.loadJob "0.0", .val (.dict [("metadata", .dict [("a", .int 1)]), ("status", .int 0), ("in", .none), ("out", .none),
+      ("intermediate", .dict [("budget", .list []), ("objective", .list [])])]))] = true := by decide +kernel
+example : checkHistory [(.createSearch, .id "0"), (.createJob "0", .id "0.0"), (.createJob "0", .id "0.0")] = false := by
+  decide +kernel
+example : checkHistory [(.createSearch, .id "0"), (.createJob "0", .id "0.0"), (.storeJobOut "0.0" (.int 5), .none),
+    (.loadOutFromAllJobs "0", .vals [])] = false := by decide +kernel
+example : checkHistory [(.createSearch, .id "0"), (.loadJob "0.0", .val (.dict []))] = false := by decide +kernel
+
 /-- malformed / unknown identifiers and keys are answered with the exception classes of the real code -/
 example : ((run Store.init (demo ++ [.loadJob "0.0.0", .loadJob "0.7", .loadSearchValue "0" "zz",
       .storeJob "0.0" "metadata" (.int 3), .storeJobMetadata "0.0" "a" .none,
